@@ -141,6 +141,9 @@ pub struct ScriptedReader<'a> {
     /// end of the stream but never becomes ready (counted in `idle_polls`)
     pub idle_at_end: bool,
     pub idle_polls: usize,
+    /// the transport is not ready once, at the first read issued at or after this stream position (reads before it do
+    /// not cross it): a Pending at a *position* of the stream, however the caller sizes its reads
+    pub pend_once_at: Option<usize>,
 }
 
 thread_local! {
@@ -173,6 +176,7 @@ impl<'a> ScriptedReader<'a> {
             delay_us: SLOW_READ_US.with(|c| c.get()),
             idle_at_end: false,
             idle_polls: 0,
+            pend_once_at: None,
         }
     }
     pub fn with_fault(mut self, pos: usize, kind: io::ErrorKind) -> Self {
@@ -206,6 +210,18 @@ impl<'a> AsyncRead for ScriptedReader<'a> {
             }
             cx.waker().wake_by_ref();
             return Poll::Pending;
+        }
+        if let Some(pp) = me.pend_once_at {
+            if me.pos >= pp {
+                me.pend_once_at = None;
+                me.step_idx -= 1; // the scripted step is kept for the next read
+                me.pendings.set(me.pendings.get() + 1);
+                if me.keep_log {
+                    me.log.push(ReadRec { pos: me.pos, cap, got: None });
+                }
+                cx.waker().wake_by_ref();
+                return Poll::Pending;
+            }
         }
         let step = match me.fail_once_at {
             Some((fp, kind)) if me.pos >= fp && step != Some(Step::Pending) => {
@@ -266,6 +282,11 @@ impl<'a> AsyncRead for ScriptedReader<'a> {
         if let Some((fp, _)) = me.fail_once_at {
             if fp > me.pos {
                 n = n.min(fp - me.pos);
+            }
+        }
+        if let Some(pp) = me.pend_once_at {
+            if pp > me.pos {
+                n = n.min(pp - me.pos);
             }
         }
         if me.delay_us > 0 && n > 0 {
